@@ -47,13 +47,22 @@ def gen_spec(r: apigen.Rng, must_have=()):
     shapes = ["unary", "unary", "unary", "unary", "server", "client", "bidi", "unary"]
     methods = []
     need = list(must_have)
+    flavors = ["plain", "lro", "paged", None, "plain", "plain", "plain", None]
     for i in range(nm):
         st = shapes[i] if i < len(shapes) else "unary"
+        flavor = "plain"
+        if st == "unary":
+            flavor = (flavors[i] if i < len(flavors) else None) or r.pick(["plain", "plain", "lro", "paged"])
         names = FIELD_NAMES[:]
         r.shuffle(names)
         fields = []
-        # at least one good field everywhere (streaming methods need one for the "streaming" violation)
-        fields.append({"name": names.pop(), "kind": r.pick(OK_KINDS)})
+        # at least one good field everywhere (streaming methods need one for the "streaming" violation);
+        # often under the SAME name in several methods, plain in one and proto3-optional in another
+        if r.maybe(0.6):
+            names.remove("request_id")
+            fields.append({"name": "request_id", "kind": r.pick(OK_KINDS)})
+        else:
+            fields.append({"name": names.pop(), "kind": r.pick(OK_KINDS)})
         if r.maybe(0.7):
             fields.append({"name": names.pop(), "kind": "ok_optional" if fields[0]["kind"] == "ok_plain" else "ok_plain"})
         for _ in range(r.randint(1, 4)):
@@ -68,7 +77,7 @@ def gen_spec(r: apigen.Rng, must_have=()):
         methods.append({"name": f"{r.pick(['Create', 'Update', 'Delete', 'Fetch', 'Move', 'Send'])}Thing{i}",
                         "service": "Ids" if (i % 4 != 3) else "Aux", "streaming": st,
                         "http": r.pick(["post", "post", "get"]) if st in ("unary", "server") else "post",
-                        "sig": sig, "fields": fields, "nested": r.maybe(0.7)})
+                        "sig": sig, "fields": fields, "nested": r.maybe(0.7), "flavor": flavor})
     return {"methods": methods}
 
 
@@ -84,6 +93,8 @@ def build_files(spec):
     inner.field("label")
     thing = f.msg("Thing")
     thing.field("name")
+    meta = f.msg("Meta")
+    meta.field("progress", "int32")
     services = {}
     for m in spec["methods"]:
         rq = f.msg(m["name"] + "Request")
@@ -91,6 +102,16 @@ def build_files(spec):
         rq.field("note")
         if m.get("nested"):
             rq.field("inner", "message", type_name=inner)
+        flavor = m.get("flavor", "plain")
+        out_type, lro = thing, None
+        if flavor == "paged":
+            rq.field("page_size", "int32")
+            rq.field("page_token")
+            out_type = f.msg(m["name"] + "Response")
+            out_type.field("things", "message", repeated=True, type_name=thing)
+            out_type.field("next_page_token")
+        elif flavor == "lro":
+            out_type, lro = ".google.longrunning.Operation", ("Thing", "Meta")
         # proto3-optional fields last: their synthetic oneofs must follow every real oneof (none here)
         for fd in m["fields"]:
             typ, optional, uuid4, required, repeated, other = KINDS[fd["kind"]]
@@ -108,8 +129,8 @@ def build_files(spec):
             svc = services[m["service"]] = f.service(m["service"])
         cs, ss = STREAMING[m["streaming"]]
         uri = "/v1/{parent=shelves/*}/" + m["name"].lower()
-        svc.method(m["name"], rq, thing, http=(m["http"], uri), body="*" if m["http"] == "post" else None,
-                   sigs=[",".join(m["sig"])] if m["sig"] else (), cs=cs, ss=ss)
+        svc.method(m["name"], rq, out_type, http=(m["http"], uri), body="*" if m["http"] == "post" else None,
+                   sigs=[",".join(m["sig"])] if m["sig"] else (), cs=cs, ss=ss, lro=lro)
     return [f]
 
 
@@ -129,6 +150,8 @@ def entry_violations(spec, entry):
     decl.update({"parent": "unannotated", "note": "unannotated"})
     if m.get("nested"):
         decl["inner"] = "message_plain"
+    if m.get("flavor") == "paged":
+        decl.update({"page_token": "unannotated", "page_size": "int_unannotated"})
     for f in fields:
         if f not in decl:
             out.append("nested" if "." in f else "missing")
@@ -165,7 +188,10 @@ def good_entry(r, m, allow_empty=True):
     fs = goods[:r.randint(1, len(goods))]
     if r.maybe(0.08):
         fs = fs + fs[:1]           # the same field listed twice is not a violation
-    return {"selector": selector(m), "fields": fs}
+    e = {"selector": selector(m), "fields": fs}
+    if m.get("flavor") == "lro" and r.maybe(0.6):
+        e["long_running"] = True   # the usual reason a service config has method settings at all
+    return e
 
 
 VIOLATIONS = ["no-method", "streaming", "missing", "nested", "kind"]
@@ -214,6 +240,33 @@ def inject(r, spec, entries, which=None):
     return which
 
 
+def shaped_lists(r, spec):
+    """valid lists of the shapes real service configs have"""
+    unary = [m for m in spec["methods"] if m["streaming"] == "unary"]
+    out = []
+    # (1) the first entries only configure long-running polling / name a streaming method; a LATER entry lists fields
+    lro = [m for m in unary if m.get("flavor") == "lro"]
+    others = [m for m in unary if m.get("flavor") != "lro"]
+    r.shuffle(others)
+    head = [{"selector": selector(m), "fields": [], "long_running": True} for m in lro[:1]]
+    head += [{"selector": selector(m), "fields": []} for m in spec["methods"] if m["streaming"] != "unary"][:1]
+    tail = [good_entry(r, m, allow_empty=False) for m in others[:2]]
+    if head and tail:
+        out.append((head + tail, "shape:fields-in-later-entry"))
+    # (2) the same field name listed for several methods (plain in one request message, proto3-optional in another), and
+    #     every flavour of unary method (plain, LRO, paginated) with settings at once
+    same = [m for m in unary if any(f["name"] == "request_id" and f["kind"] in OK_KINDS for f in m["fields"])]
+    if len(same) >= 2:
+        out.append(([{"selector": selector(m), "fields": ["request_id"]} for m in same], "shape:same-field-many-methods"))
+    flav = {}
+    for m in unary:
+        flav.setdefault(m.get("flavor", "plain"), m)
+    ent = [good_entry(r, m, allow_empty=False) for m in flav.values()]
+    r.shuffle(ent)
+    out.append((ent, "shape:every-flavour"))
+    return out
+
+
 def gen_settings(r, spec, klass=None):
     unary = [m for m in spec["methods"] if m["streaming"] == "unary"]
     ms = spec["methods"][:]
@@ -254,19 +307,28 @@ def gen_settings(r, spec, klass=None):
 # ---------------------------------------------------------------------------------------------------
 # real code: schema objects, validation, generation
 
-def write_yaml(settings):
+def yaml_entry(e):
+    d = {"selector": e["selector"]}
+    if e.get("long_running"):
+        d["long_running"] = {"initial_poll_delay": "5s", "poll_delay_multiplier": 1.5, "max_poll_delay": "60s", "total_poll_timeout": "600s"}
+    if e.get("fields"):
+        d["auto_populated_fields"] = list(e["fields"])
+    return d
+
+
+def write_yaml(settings, rest_async=True):
     y = {"type": "google.api.Service", "config_version": 3, "name": "ids.example.com",
-         "publishing": {"method_settings": [
-             ({"selector": e["selector"], "auto_populated_fields": list(e["fields"])} if e.get("fields") else {"selector": e["selector"]})
-             for e in settings]}}
+         "publishing": {"method_settings": [yaml_entry(e) for e in settings]}}
+    if rest_async:
+        y["publishing"]["library_settings"] = [{"version": PKG, "python_settings": {"experimental_features": {"rest_async_io_enabled": True}}}]
     fd, path = tempfile.mkstemp(prefix="gapicverif_c18_", suffix=".yaml", dir=genrun.SCRATCH)
     with os.fdopen(fd, "w") as fh:
         yaml.safe_dump(y, fh)
     return path
 
 
-def make_request(spec, settings, transport="grpc+rest"):
-    path = write_yaml(settings)
+def make_request(spec, settings, transport="grpc+rest", rest_async=True):
+    path = write_yaml(settings, rest_async)
     files = build_files(spec)
     return files, apigen.request(files, f"transport={transport},autogen-snippets=false,service-yaml={path}"), path
 
@@ -358,7 +420,7 @@ def t2(ctx, api, aj, spec, lists, label):
         ok, errs, crash = real_validate(api, settings)
         want, viol = statement_ok(spec, settings)
         ctx.case({"settings": settings, "class": klass, "accepted": ok}, distinct_key=["t2", json.dumps(spec["methods"], sort_keys=True)[:0], json.dumps(settings, sort_keys=True), label])
-        ctx.count("settings_class", klass.split(":")[0] if not klass.startswith("violation") else klass)
+        ctx.count("settings_class", klass.split(":")[0] if not klass.startswith(("violation", "shape")) else klass)
         ctx.count("outcome", "accepted" if ok else "rejected")
         ctx.traces += 1
         if "unsupported" in mo:
@@ -394,11 +456,13 @@ def oracle_generation(ctx, want, viol, ok, errs, settings, payload):
 # T3: generation outcome + call time on the three paths
 
 def gen_script(r, spec, settings, n_calls):
-    """caller-owned objects and calls for the unary methods with auto-populated fields + one control method"""
+    """caller-owned objects and calls for the unary methods with auto-populated fields + one control method.
+    objects carry LITERAL values (what a caller writes): instance = Request(**values), dict = dict(values)."""
     by_sel = {selector(m): m for m in spec["methods"]}
     targets = [(by_sel[e["selector"]], list(dict.fromkeys(e["fields"]))) for e in settings if e.get("fields")]
     listed = {e["selector"] for e in settings}
     controls = [m for m in spec["methods"] if m["streaming"] == "unary" and selector(m) not in listed]
+    controls += [by_sel[e["selector"]] for e in settings if not e.get("fields") and by_sel[e["selector"]]["streaming"] == "unary"]
     if controls:
         targets.append((r.pick(controls), []))
     objects, calls = [], []
@@ -425,6 +489,13 @@ def gen_script(r, spec, settings, n_calls):
         objects.append({"method": m["name"], "values": values})
         return len(objects) - 1
 
+    def add(m, mode, i, **extra):
+        c = {"method": m["name"], "mode": mode, "obj": i, "client": r.randrange(2)}
+        if m.get("flavor") == "paged" and r.maybe(0.7):
+            c["tokens"] = [val("tok") for _ in range(r.randint(1, 2))]      # the server announces further pages
+        c.update(extra)
+        calls.append(c)
+
     for m, auto in targets:
         plan = []
         # every state of every auto field at least once, then random combinations
@@ -438,20 +509,23 @@ def gen_script(r, spec, settings, n_calls):
             if mode == "kwargs":
                 kw = {k: v for k, v in objects[i]["values"].items() if k in m["sig"]}
                 objects[i]["values"] = dict(kw)          # what the caller handed over is exactly the keyword arguments
-                calls.append({"method": m["name"], "mode": "kwargs", "obj": i, "kwargs": kw})
+                add(m, "kwargs", i, kwargs=kw)
             else:
-                calls.append({"method": m["name"], "mode": mode, "obj": i})
+                add(m, mode, i)
+        # no request at all (gRPC paths only: the REST URI needs `parent`)
+        objects.append({"method": m["name"], "values": {}})
+        add(m, "none", len(objects) - 1, only_grpc=True)
         if auto:
             # two calls with two equal requests (fresh ids expected), same dict twice, same INSTANCE twice
             i = new_obj(m, auto, ["unset"] * len(auto))
-            calls.append({"method": m["name"], "mode": "dict", "obj": i})
-            calls.append({"method": m["name"], "mode": "dict", "obj": i})
+            add(m, "dict", i)
+            add(m, "dict", i)
             j = new_obj(m, auto, ["unset"] * len(auto))
-            calls.append({"method": m["name"], "mode": "inst", "obj": j})
-            calls.append({"method": m["name"], "mode": "inst", "obj": j})
+            add(m, "inst", j, client=0)
+            add(m, "inst", j, client=1)          # … even through a second client
             k = new_obj(m, auto, ["set"] * len(auto))
-            calls.append({"method": m["name"], "mode": "inst", "obj": k})
-            calls.append({"method": m["name"], "mode": "inst", "obj": k})
+            add(m, "inst", k)
+            add(m, "inst", k)
     return {"objects": objects, "calls": calls}
 
 
@@ -486,6 +560,8 @@ def wire_view(m, d):
     field only when non-empty"""
     out = {}
     names = [("parent", "unannotated"), ("note", "unannotated")] + [(f["name"], f["kind"]) for f in m["fields"] if is_string_singular(f["kind"])]
+    if m.get("flavor") == "paged":
+        names.append(("page_token", "unannotated"))
     for n, kind in names:
         v = d.get(n)
         if KINDS[kind][1]:
@@ -514,7 +590,41 @@ def emitted_pipeline(src, cls_suffix, mname):
     return None
 
 
-def t3(ctx, r, spec, settings, klass, script=None, paths=("sync", "asyncio", "rest")):
+def emitted_feature_tests(ctx, root, spec, settings, payload):
+    """run the emitted unit tests that mention the feature (…_auto_populated_field, …_empty_call_<transport>)"""
+    import glob, subprocess
+    by_sel = {selector(m): m for m in spec["methods"]}
+    for tf in sorted(glob.glob(os.path.join(root, "tests", "unit", "gapic", "*", "test_*.py"))):
+        src = open(tf).read()
+        names = []
+        for n in ast.parse(src).body:
+            if isinstance(n, (ast.FunctionDef, ast.AsyncFunctionDef)) and n.name.startswith("test_"):
+                seg = ast.get_source_segment(src, n) or ""
+                if "uuid4 field" in seg or "auto_populated_field" in n.name:
+                    names.append(n.name)
+        svc = os.path.basename(tf)[len("test_"):-3]
+        mine = [by_sel[e["selector"]] for e in settings if e.get("fields") and by_sel[e["selector"]]["service"].lower() == svc]
+        for mm in mine:
+            for suffix in ("non_empty_request_with_auto_populated_field", "empty_call_grpc", "empty_call_grpc_asyncio", "empty_call_rest"):
+                if f"test_{snake(mm['name'])}_{suffix}" not in names:
+                    ctx.fail("emitted-feature-test-missing", f"emitted tests have no test_{snake(mm['name'])}_{suffix} checking the auto-populated field", payload)
+        if not names:
+            continue
+        e = dict(os.environ, PYTHONPATH=root, PYTHONDONTWRITEBYTECODE="1")
+        p = subprocess.run([genrun.PY, "-m", "pytest", tf, "-q", "-x", "-p", "no:cacheprovider", "-k", " or ".join(names)],
+                           cwd=root, env=e, capture_output=True, text=True, timeout=600)
+        ctx.count("emitted_feature_tests", "passed" if p.returncode == 0 else "failed", 1)
+        ctx.count("emitted_feature_tests", "selected", len(names))
+        ctx.traces += 1
+        if p.returncode != 0:
+            tail = [ln for ln in p.stdout.split("\n") if ln.startswith(("FAILED", "ERROR", "E "))][:4]
+            ctx.fail("emitted-feature-test-failed", f"emitted unit tests for the feature fail in {os.path.basename(tf)}: {tail or p.stdout[-300:]}", payload)
+
+
+ALL_PATHS = ("sync", "asyncio", "rest", "rest_asyncio")
+
+
+def t3(ctx, r, spec, settings, klass, script=None, paths=ALL_PATHS, run_tests=False):
     payload = {"spec": spec, "settings": settings, "class": klass}
     files, req, ypath = make_request(spec, settings)
     root = None
@@ -554,134 +664,173 @@ def t3(ctx, r, spec, settings, klass, script=None, paths=("sync", "asyncio", "re
         for e in settings:
             auto_of[e["selector"]] = list(dict.fromkeys(e.get("fields") or []))
             raw_of[e["selector"]] = list(e.get("fields") or [])        # the macro iterates the list as written
+        model_settings = [{"selector": e["selector"], "fields": list(e.get("fields") or [])} for e in settings]
         svc_loc = {}
         for sname in {m["service"] for m in spec["methods"]}:
             svc_loc[sname] = rpc.py_locations(api, api.services[f"{PKG}.{sname}"])
+            smod = svc_loc[sname]["service_module"]
+            svc_loc[sname]["rest_asyncio"] = f"{smod}.transports.rest_asyncio:Async{sname}RestTransport"
+        REST_PATHS = ("rest", "rest_asyncio")
+
+        def server_script(mm, call):
+            toks = call.get("tokens") or []
+            if not toks:
+                return None, None
+            out_full = f"{PKG}.{mm['name']}Response"
+            g = [{"replies": [codec.encode_b64(out_full, {"next_page_token": t})]} for t in toks] + [{"replies": [codec.encode_b64(out_full, {})]}]
+            h = [{"status": 200, "body": json.dumps({"nextPageToken": t})} for t in toks] + [{"status": 200, "body": "{}"}]
+            return {f"/{PKG}.{mm['service']}/{mm['name']}": g}, h
+
         # one session per (service, path)
         ops, index = [], []
         for sname in sorted(svc_loc):
-            idx = [k for k, c in enumerate(script["calls"]) if by_name[c["method"]]["service"] == sname]
-            if not idx:
-                continue
+            loc = svc_loc[sname]
             objs = []
             for ob in script["objects"]:
                 mm = by_name[ob["method"]]
-                full = f"{PKG}.{mm['name']}Request"
                 minput = api.all_methods[selector(mm)].input
-                objs.append({"py_request": rpc.py_type(minput), "b64": codec.encode_b64(full, ob["values"])})
-            calls = [dict(script["calls"][k], method=snake(script["calls"][k]["method"])) for k in idx]
-            loc = svc_loc[sname]
+                objs.append({"py_request": rpc.py_type(minput), "values": ob["values"]})
             for path in paths:
-                ops.append({"op": "c18_session", "kind": path,
-                            "client": loc["async_client"] if path == "asyncio" else loc["client"],
-                            "transport": loc[{"sync": "grpc", "asyncio": "grpc_asyncio", "rest": "rest"}[path]],
+                idx = [k for k, c in enumerate(script["calls"]) if by_name[c["method"]]["service"] == sname
+                       and not (c.get("only_grpc") and path in REST_PATHS)]
+                if not idx:
+                    continue
+                calls = []
+                for k in idx:
+                    c = script["calls"][k]
+                    mm = by_name[c["method"]]
+                    g, h = server_script(mm, c)
+                    calls.append({"method": snake(c["method"]), "mode": c["mode"], "obj": c["obj"], "kwargs": c.get("kwargs"),
+                                  "client": c.get("client", 0), "consume": "pager" if mm.get("flavor") == "paged" else "value",
+                                  "script_grpc": g, "script_rest": h})
+                ops.append({"op": "c18_session", "kind": path, "clients": 2,
+                            "client": loc["async_client"] if path in ("asyncio", "rest_asyncio") else loc["client"],
+                            "transport": loc[{"sync": "grpc", "asyncio": "grpc_asyncio", "rest": "rest", "rest_asyncio": "rest_asyncio"}[path]],
                             "objects": objs, "calls": calls})
                 index.append((sname, path, idx))
-        out = libhost.run(root, ops, timeout=600)
-        # ---- model sessions: per method (the model's store is per method), same call order
+        out = libhost.run(root, ops, timeout=900)
         seen_ids = {}       # uuid -> (path, call index, field) where first seen
+        model_imports = None
         for (sname, path, idx), sess in zip(index, out):
             if "calls" not in sess:
                 ctx.fail("session-failed:" + path, f"T3 session failed ({path}): {str(sess)[-400:]}", payload)
                 continue
-            # model: one session over all calls of this service; objects of other methods are never touched,
-            # so run the model per method with the sub-sequence of calls (the uuid counter is global: renumber)
+            # model: objects of other methods are never touched, so run the model per method with the sub-sequence of
+            # calls (the model's uuid counter is per run: only equalities among ids are compared)
             per_method = {}
             for pos, k in enumerate(idx):
                 per_method.setdefault(script["calls"][k]["method"], []).append((pos, k))
             model_wire = {}
+            mops, mkeys = [], []
             for mname, lst in per_method.items():
                 mm = by_name[mname]
                 mj = [x for x in aj if x["selector"] == selector(mm)][0]
                 objs_m = [[[kk, vv] for kk, vv in ob["values"].items()] for ob in script["objects"]]
-                mo2 = ask(ctx, [{"op": "c18.session", "method": mj,
-                                       "fields": raw_of.get(selector(mm)) if selector(mm) in raw_of else None,
-                                       "path": path, "objects": objs_m,
-                                       "calls": [[script["calls"][k]["mode"], script["calls"][k]["obj"]] for _, k in lst]}])[0]
+                mops.append({"op": "c18.session", "method": mj, "settings": model_settings, "path": path, "objects": objs_m,
+                             "calls": [[script["calls"][k]["mode"], script["calls"][k]["obj"], script["calls"][k].get("tokens") or []] for _, k in lst]})
+                mkeys.append((mname, lst))
+            for (mname, lst), mo2 in zip(mkeys, ask(ctx, mops)):
                 if "unsupported" in mo2 or "error" in mo2:
                     ctx.unsupported += 1
                     continue
+                model_imports = mo2.get("imports")
                 for (pos, k), mc in zip(lst, mo2["calls"]):
                     model_wire[k] = (mname, mc)
             first_populated = {}      # object index -> call index of the first call that used it in inst mode
+            ids = []                  # (method, model tag, impl value)
             for pos, k in enumerate(idx):
                 call = script["calls"][k]
                 mm = by_name[call["method"]]
                 res_ = sess["calls"][pos]
                 p2 = dict(payload, path=path, call_index=k)
                 auto = auto_of.get(selector(mm), [])
-                ctx.case({"path": path, "mode": call["mode"], "method": mm["name"], "auto": auto},
-                         distinct_key=["call", json.dumps(spec, sort_keys=True)[:0], json.dumps(settings, sort_keys=True), path, k, json.dumps(script["objects"][call["obj"]], sort_keys=True)])
+                ctx.case({"path": path, "mode": call["mode"], "method": mm["name"], "flavor": mm.get("flavor"), "auto": auto},
+                         distinct_key=["call", json.dumps(settings, sort_keys=True), path, k, json.dumps(script["objects"][call["obj"]], sort_keys=True)])
                 ctx.count("path", path)
                 ctx.count("mode", call["mode"])
+                ctx.count("method_flavor", mm.get("flavor", "plain") + ("+pages" if call.get("tokens") else ""))
                 if "ok" not in res_:
                     ctx.fail("call-raised:" + str(res_.get("raised")), f"{path} {mm['name']}: {res_.get('raised')}: {res_.get('msg')}", p2)
                     continue
-                if len(res_["server"]) != 1:
-                    ctx.fail("server-calls", f"{path} {mm['name']}: server saw {len(res_['server'])} requests", p2)
+                npages = 1 + len(call.get("tokens") or [])
+                if len(res_["server"]) != npages:
+                    ctx.fail("server-calls", f"{path} {mm['name']}: server saw {len(res_['server'])} requests, expected {npages}", p2)
                     continue
-                rec = res_["server"][0]
                 full = f"{PKG}.{mm['name']}Request"
-                if path == "rest":
-                    d = decode_rest(codec, full, rec, ["parent", "note"] + [f["name"] for f in mm["fields"]])
-                else:
-                    d = codec.decode(full, rec["requests"][0])
-                wire = wire_view(mm, d)
-                caller = script["objects"][call["obj"]]["values"]
+                caller = {} if call["mode"] == "none" else script["objects"][call["obj"]]["values"]
                 reuse_of = first_populated.get(call["obj"]) if call["mode"] == "inst" else None
-                # ---------------- oracle (the statement, on the caller's script and the server's view)
-                for f, got in wire.items():
-                    kind = "unannotated" if f in ("parent", "note") else [x["kind"] for x in mm["fields"] if x["name"] == f][0]
-                    optional = KINDS[kind][1]
-                    cv = caller.get(f)
-                    ctx.count("field_state", ("auto:" if f in auto else "other:") + ("unset" if cv is None else ("empty" if cv == "" else "set")) + (":optional" if optional else ":plain"))
-                    if f in auto and (cv is None or (cv == "" and not optional)):
-                        if got is None or not UUID4_RE.match(got):
-                            ctx.fail(f"id-missing:{path}", f"{path} {mm['name']}.{f} left unset by the caller, server saw {got!r} (not a version-4 UUID)", p2)
+                for page, rec in enumerate(res_["server"]):
+                    if path in REST_PATHS:
+                        d = decode_rest(codec, full, rec, ["parent", "note", "page_token", "page_size"] + [f["name"] for f in mm["fields"]])
+                    else:
+                        d = codec.decode(full, rec["requests"][0])
+                    wire = wire_view(mm, d)
+                    # ---------------- oracle (the statement, on the caller's script and the server's view)
+                    for f, got in wire.items():
+                        if f == "page_token":
                             continue
-                        prev = seen_ids.get(got)
-                        if prev is not None and prev != (path, k, f):
-                            if reuse_of is not None:
-                                ctx.fail("request-instance-reuse-same-id",
-                                         f"{path} {mm['name']}.{f}: second call with the same request instance (field never set by the caller) re-sent the id of call {reuse_of}", p2)
-                            else:
-                                ctx.fail("id-not-fresh", f"{path} {mm['name']}.{f}: id {got} already sent by {prev}", p2)
-                        seen_ids.setdefault(got, (path, k, f))
-                    elif f in auto:
-                        want_v = cv if (cv is not None and (optional or cv != "")) else None
-                        if got != want_v:
-                            ctx.fail(f"caller-value-altered:{path}", f"{path} {mm['name']}.{f}: caller gave {cv!r}, server saw {got!r}", p2)
+                        kind = "unannotated" if f in ("parent", "note") else [x["kind"] for x in mm["fields"] if x["name"] == f][0]
+                        optional = KINDS[kind][1]
+                        cv = caller.get(f)
+                        if page == 0:
+                            ctx.count("field_state", ("auto:" if f in auto else "other:") + ("unset" if cv is None else ("empty" if cv == "" else "set")) + (":optional" if optional else ":plain"))
+                        if f in auto and (cv is None or (cv == "" and not optional)):
+                            if got is None or not UUID4_RE.match(got):
+                                ctx.fail(f"id-missing:{path}", f"{path} {mm['name']}.{f} left unset by the caller, server saw {got!r} (not a version-4 UUID)" + (f" on page {page}" if page else ""), p2)
+                                continue
+                            if page:
+                                continue          # follow-up requests of one paginated call: not new calls
+                            prev = seen_ids.get(got)
+                            if prev is not None and prev != (path, k, f):
+                                if reuse_of is not None:
+                                    ctx.fail("request-instance-reuse-same-id",
+                                             f"{path} {mm['name']}.{f}: second call with the same request instance (field never set by the caller) re-sent the id of call {reuse_of}", p2)
+                                else:
+                                    ctx.fail("id-not-fresh", f"{path} {mm['name']}.{f}: id {got} already sent by {prev}", p2)
+                            seen_ids.setdefault(got, (path, k, f))
+                        elif f in auto:
+                            want_v = cv if (cv is not None and (optional or cv != "")) else None
+                            if got != want_v:
+                                ctx.fail(f"caller-value-altered:{path}", f"{path} {mm['name']}.{f}: caller gave {cv!r}, server saw {got!r}" + (f" on page {page}" if page else ""), p2)
+                    # ---------------- correspondence with the model
+                    ctx.traces += 1
+                    if k not in model_wire:
+                        continue
+                    mname, mc = model_wire[k]
+                    if mc is None or page >= len(mc["pages"]):
+                        ctx.disagree("T3:c18.session", f"model sent nothing for call {k} page {page}", p2)
+                        continue
+                    mwire = mc["pages"][page]
+                    cmp_fields = [f for f in wire if not (path in REST_PATHS and f not in auto and f not in ("parent", "note", "page_token")
+                                                          and KINDS[[x["kind"] for x in mm["fields"] if x["name"] == f][0]][3])]
+                    wv = {f: wire[f] for f in cmp_fields}
+                    mw = {f: mwire.get(f) for f in wv}
+                    pat_m = {f: ("$" if (v or "").startswith("$") else v) for f, v in mw.items()}
+                    pat_i = {f: ("$" if (v is not None and UUID4_RE.match(v)) else v) for f, v in wv.items()}
+                    if pat_m != pat_i:
+                        ctx.disagree("T3:c18.session", f"{path} {mm['name']} call {k} page {page}: model {pat_m} vs impl {pat_i}", p2)
+                    ids += [(mname, v, wv[f]) for f, v in mw.items() if (v or "").startswith("$")]
+                    # the caller's own object afterwards (model: the instance IS the request that was sent)
+                    if page == 0 and call["mode"] == "inst" and isinstance(res_.get("after"), dict):
+                        for f in auto:
+                            if (res_["after"].get(f) or None) != (wire.get(f) or None):
+                                ctx.disagree("T3:c18.caller-object", f"{path} {mm['name']}.{f}: instance holds {res_['after'].get(f)!r} after the call, server saw {wire.get(f)!r}", p2)
                 if call["mode"] == "inst":
                     first_populated.setdefault(call["obj"], k)
-                # ---------------- correspondence with the model
-                ctx.traces += 1
-                if k in model_wire:
-                    mname, mc = model_wire[k]
-                    if mc is None:
-                        ctx.disagree("T3:c18.session", "model sent nothing", p2)
-                    else:
-                        cmp_fields = [f for f in wire if not (path == "rest" and f not in auto and f not in ("parent", "note")
-                                                              and KINDS[[x["kind"] for x in mm["fields"] if x["name"] == f][0]][3])]
-                        wire = {f: wire[f] for f in cmp_fields}
-                        mw = {f: mc["wire"].get(f) for f in wire}
-                        pat_m = {f: ("$" if (v or "").startswith("$") else v) for f, v in mw.items()}
-                        pat_i = {f: ("$" if (v is not None and UUID4_RE.match(v)) else v) for f, v in wire.items()}
-                        if pat_m != pat_i:
-                            ctx.disagree("T3:c18.session", f"{path} {mm['name']} call {k}: model {pat_m} vs impl {pat_i}", p2)
-                        sess.setdefault("_ids", []).append((mname, {f: v for f, v in mw.items() if (v or "").startswith("$")},
-                                                            {f: wire[f] for f, v in mw.items() if (v or "").startswith("$")}))
             # equalities among generated ids: same model index <-> same uuid (per method: the model counter is per method run)
             by_m = {}
-            for mname, mids, iids in sess.get("_ids", []):
-                for f, tag in mids.items():
-                    by_m.setdefault(mname, []).append((tag, iids.get(f)))
+            for mname, tag, val_ in ids:
+                by_m.setdefault(mname, []).append((tag, val_))
+            bad = 0
             for mname, pairs in by_m.items():
                 for a in range(len(pairs)):
                     for b in range(a + 1, len(pairs)):
-                        if (pairs[a][0] == pairs[b][0]) != (pairs[a][1] == pairs[b][1]):
+                        if (pairs[a][0] == pairs[b][0]) != (pairs[a][1] == pairs[b][1]) and bad < 3:
+                            bad += 1
                             ctx.disagree("T3:c18.session-ids", f"{path} {mname}: model {pairs[a][0]} vs {pairs[b][0]}, impl {pairs[a][1]} vs {pairs[b][1]}", payload)
-        # ---- structure of the emitted method bodies vs the model's statement list
-        pl = ask(ctx, [{"op": "c18.pipeline", "path": p} for p in ("sync", "asyncio", "rest")])
+        # ---- structure of the emitted client modules vs the model: statement order, the `import uuid` gate
+        pl = ask(ctx, [{"op": "c18.pipeline", "path": p} for p in ("sync", "asyncio", "rest", "rest_asyncio")] +
+                 [{"op": "c18.imports", "settings": model_settings, "selector": ""}])
         for sname, loc in svc_loc.items():
             base = os.path.join(root, *loc["service_module"].split("."))
             srcs = {"sync": (open(os.path.join(base, "client.py")).read(), "Client"),
@@ -689,6 +838,14 @@ def t3(ctx, r, spec, settings, klass, script=None, paths=("sync", "asyncio", "re
             client_modules = sorted(x for x in os.listdir(base) if x.endswith("client.py"))
             if client_modules != ["async_client.py", "client.py"]:
                 ctx.disagree("T3:c18.pipeline", f"client modules {client_modules}: REST no longer goes through client.py?", payload)
+            for p, (src, suffix) in srcs.items():
+                has_import = any(isinstance(n, ast.Import) and any(a.name == "uuid" for a in n.names) for n in ast.parse(src).body)
+                ctx.traces += 1
+                if has_import != pl[4]["imports"]:
+                    ctx.disagree("T3:c18.import-gate", f"{sname} {p} client: `import uuid` present={has_import}, model importsUuid={pl[4]['imports']}", payload)
+                uses = "uuid.uuid4()" in src
+                if uses and not has_import:        # the statement's observable: such a call cannot send anything
+                    ctx.fail("uuid-not-imported", f"{sname} {p} client evaluates uuid.uuid4() but does not import uuid", payload)
             for mm in spec["methods"]:
                 if mm["service"] != sname or mm["streaming"] != "unary":
                     continue
@@ -702,8 +859,11 @@ def t3(ctx, r, spec, settings, klass, script=None, paths=("sync", "asyncio", "re
                     ctx.traces += 1
                     if got != want_seq:
                         ctx.disagree("T3:c18.pipeline", f"{p} {mm['name']}: emitted statement order {got} vs model {want_seq}", payload)
-            if pl[2]["stmts"] != pl[0]["stmts"]:
-                ctx.disagree("T3:c18.pipeline", "model: rest pipeline differs from sync", payload)
+            if pl[2]["stmts"] != pl[0]["stmts"] or pl[3]["stmts"] != pl[1]["stmts"]:
+                ctx.disagree("T3:c18.pipeline", "model: rest pipeline differs from sync (or rest_asyncio from asyncio)", payload)
+        # ---- the emitted unit tests that exercise the feature
+        if run_tests:
+            emitted_feature_tests(ctx, root, spec, settings, payload)
     finally:
         try:
             os.unlink(ypath)
@@ -727,7 +887,7 @@ def run_corpus(ctx):
                 blob = json.load(fh)
             p = blob.get("payload", blob)
             t3(ctx, ctx.rng("corpus", fn), p["spec"], p["settings"], p.get("class", "corpus"), script=p.get("script"),
-               paths=tuple(p.get("paths", ("sync", "asyncio", "rest"))))
+               paths=tuple(p.get("paths", ALL_PATHS)))
             ctx.count("stream", "corpus")
 
 
@@ -759,14 +919,18 @@ def run(ctx):
         for which in VIOLATIONS:
             s, lab = gen_settings(r, spec, "valid")
             lists.append((s, "violation:" + inject(r, spec, s, which)))
+        # the same valid lists in reverse order (the verdict and what each method sees do not depend on the order)
+        lists += [(list(reversed(sl)), "valid-reversed") for sl, lab in lists if lab == "valid" and len(sl) > 1][:10]
+        shaped = shaped_lists(r, spec)
+        lists += shaped
         t2(ctx, api, aj, spec, lists, f"api{a}")
         # T3 on a sub-list: accepted ones reach call time
-        pick = [x for x in lists if x[1] == "valid"][:ctx.n(3, 5)]
-        rest = [x for x in lists if x[1] != "valid"]
+        pick = shaped + [x for x in lists if x[1] == "valid"][:ctx.n(1, 4)]
+        rest = [x for x in lists if not x[1].startswith(("valid", "shape"))]
         r.shuffle(rest)
         pick += rest[:ctx.n(7, 20)]
-        for settings, klass in pick:
-            t3(ctx, r, spec, settings, klass)
+        for n_, (settings, klass) in enumerate(pick):
+            t3(ctx, r, spec, settings, klass, run_tests=(n_ == 0 or not ctx.quick) and klass.startswith(("valid", "shape")))
             ctx.count("stream", "generated")
 
 
@@ -787,7 +951,7 @@ def replay(ctx, payload):
     import leanio
     ctx.driver = leanio.Driver()
     t3(ctx, ctx.rng("replay"), payload["spec"], payload["settings"], payload.get("class", "replay"), script=payload.get("script"),
-       paths=tuple(payload.get("paths", ("sync", "asyncio", "rest"))))
+       paths=tuple(payload.get("paths", ALL_PATHS)))
     if not ctx.failures:
         files = build_files(payload["spec"])
         api, _ = genrun.build_api(apigen.request(files, "transport=grpc+rest,autogen-snippets=false"))
